@@ -85,3 +85,36 @@ def leftmost (ss : List (List KV)) : Nat :=
   | some k => (ss.findIdx? fun s => match s with | (k', _) :: _ => k' == k | [] => false).getD 0
 
 end BS.Merge
+
+/-! ## the cogroup reader (cogroup.go:190-300)
+
+`cogroupReader` keeps one sorted, buffered cursor per input (each input is first sorted by `sortio.SortReader`) in a heap
+ordered by the current key.  Each round it takes the least key, gathers from every input *all* rows under that key (an
+input may hold many) and emits one row: the key and, per input, the list of values in the input's order. -/
+namespace BS.Merge
+open BS.KV
+
+/-- the values of the leading rows with key `k`, and the rest of the stream -/
+def takeKey (k : Int) : List KV → List Int × List KV
+  | [] => ([], [])
+  | (k', v) :: t =>
+    if k' = k then let r := takeKey k t; (v :: r.1, r.2)
+    else ([], (k', v) :: t)
+
+def cgStep (ss : List (List KV)) : Option ((Int × List (List Int)) × List (List KV)) :=
+  match minKey ss with
+  | none => none
+  | some k => some ((k, ss.map fun s => (takeKey k s).1), ss.map fun s => (takeKey k s).2)
+
+def cgRun : Nat → List (List KV) → List (Int × List (List Int))
+  | 0, _ => []
+  | fuel+1, ss =>
+    match cgStep ss with
+    | none => []
+    | some (row, ss') => row :: cgRun fuel ss'
+
+/-- what `Cogroup` means for key `k`: per input, the values of its rows with that key, in the input's order -/
+def groupsOf (k : Int) (ss : List (List KV)) : List (List Int) :=
+  ss.map fun s => (s.filter fun r => r.1 = k).map (·.2)
+
+end BS.Merge
